@@ -210,11 +210,11 @@ pub(crate) fn render_bash(
     let init = "local cur prev words cword ; _init_completion || return ;";
     for op in ops {
         match op {
-            ShellComp::File { mask: None } => write!(res, "{} _filedir", init),
+            ShellComp::File { mask: None } => writeln!(res, "{} _filedir", init),
             ShellComp::File { mask: Some(mask) } => {
                 writeln!(res, "{} _filedir {}", init, Shell(&bashmask(mask)))
             }
-            ShellComp::Dir { mask: None } => write!(res, "{} _filedir -d", init),
+            ShellComp::Dir { mask: None } => writeln!(res, "{} _filedir -d", init),
             ShellComp::Dir { mask: Some(mask) } => {
                 writeln!(res, "{} _filedir -d {}", init, Shell(&bashmask(mask)))
             }
